@@ -15,6 +15,7 @@ theorem pos_prefix (op : UnOp) (x : XExpr) (hop : isPostfix op = false)
     (h : needParen x.prec (unPrec op) prefixOperandSide = false) : x.lvl ≤ 2 := by
   cases op <;> simp [isPostfix] at hop <;>
   (cases x with
+   | lit l => simp only [XExpr.prec, XExpr.lvl, litPrec] at h ⊢ <;> generalize litNegative l = b at h ⊢ <;> cases b <;> revert h <;> decide
    | un o _ => cases o <;> simp only [XExpr.prec, XExpr.lvl] at h ⊢ <;> revert h <;> decide
    | bin o _ _ => cases o <;> simp only [XExpr.prec, XExpr.lvl] at h ⊢ <;> revert h <;> decide
    | _ => simp only [XExpr.prec, XExpr.lvl] at h ⊢ <;> revert h <;> decide)
@@ -23,6 +24,7 @@ theorem pos_postfix (op : UnOp) (x : XExpr) (hop : isPostfix op = true)
     (h : needParen x.prec (unPrec op) postfixOperandSide = false) : x.lvl ≤ 1 := by
   cases op <;> simp [isPostfix] at hop <;>
   (cases x with
+   | lit l => simp only [XExpr.prec, XExpr.lvl, litPrec] at h ⊢ <;> generalize litNegative l = b at h ⊢ <;> cases b <;> revert h <;> decide
    | un o _ => cases o <;> simp only [XExpr.prec, XExpr.lvl] at h ⊢ <;> revert h <;> decide
    | bin o _ _ => cases o <;> simp only [XExpr.prec, XExpr.lvl] at h ⊢ <;> revert h <;> decide
    | _ => simp only [XExpr.prec, XExpr.lvl] at h ⊢ <;> revert h <;> decide)
@@ -31,6 +33,7 @@ theorem pos_binL (op : BinOp) (x : XExpr) (h : needParen x.prec (binPrec op) bin
     (binLevel op ≠ 14 → x.lvl ≤ binLevel op ∧ (x.lvl = 15 → binLevel op = 15)) ∧ (binLevel op = 14 → x.lvl ≤ 12) := by
   cases op <;>
   (cases x with
+   | lit l => simp only [XExpr.prec, XExpr.lvl, litPrec] at h ⊢ <;> generalize litNegative l = b at h ⊢ <;> cases b <;> revert h <;> decide
    | un o _ => cases o <;> simp only [XExpr.prec, XExpr.lvl] at h ⊢ <;> revert h <;> decide
    | bin o _ _ => cases o <;> simp only [XExpr.prec, XExpr.lvl] at h ⊢ <;> revert h <;> decide
    | _ => simp only [XExpr.prec, XExpr.lvl] at h ⊢ <;> revert h <;> decide)
@@ -39,18 +42,21 @@ theorem pos_binR (op : BinOp) (x : XExpr) (h : needParen x.prec (binPrec op) bin
     (binLevel op ≠ 14 → x.lvl ≤ binLevel op - 1) ∧ (binLevel op = 14 → x.lvl ≤ 14) := by
   cases op <;>
   (cases x with
+   | lit l => simp only [XExpr.prec, XExpr.lvl, litPrec] at h ⊢ <;> generalize litNegative l = b at h ⊢ <;> cases b <;> revert h <;> decide
    | un o _ => cases o <;> simp only [XExpr.prec, XExpr.lvl] at h ⊢ <;> revert h <;> decide
    | bin o _ _ => cases o <;> simp only [XExpr.prec, XExpr.lvl] at h ⊢ <;> revert h <;> decide
    | _ => simp only [XExpr.prec, XExpr.lvl] at h ⊢ <;> revert h <;> decide)
 
 theorem pos_ternC (x : XExpr) (h : needParen x.prec precTernaryConditional ternCondSide = false) : x.lvl ≤ 12 := by
   cases x with
+  | lit l => simp only [XExpr.prec, XExpr.lvl, litPrec] at h ⊢ <;> generalize litNegative l = b at h ⊢ <;> cases b <;> revert h <;> decide
   | un o _ => cases o <;> simp only [XExpr.prec, XExpr.lvl] at h ⊢ <;> revert h <;> decide
   | bin o _ _ => cases o <;> simp only [XExpr.prec, XExpr.lvl] at h ⊢ <;> revert h <;> decide
   | _ => simp only [XExpr.prec, XExpr.lvl] at h ⊢ <;> revert h <;> decide
 
 theorem pos_ternA (x : XExpr) (h : needParen x.prec precTernaryConditional ternTrueSide = false) : x.lvl ≤ 14 := by
   cases x with
+  | lit l => simp only [XExpr.prec, XExpr.lvl, litPrec] at h ⊢ <;> generalize litNegative l = b at h ⊢ <;> cases b <;> revert h <;> decide
   | un o _ => cases o <;> simp only [XExpr.prec, XExpr.lvl] at h ⊢ <;> revert h <;> decide
   | bin o _ _ => cases o <;> simp only [XExpr.prec, XExpr.lvl] at h ⊢ <;> revert h <;> decide
   | _ => simp only [XExpr.prec, XExpr.lvl] at h ⊢ <;> revert h <;> decide
@@ -58,6 +64,7 @@ theorem pos_ternA (x : XExpr) (h : needParen x.prec precTernaryConditional ternT
 theorem pos_ternB (x : XExpr) (h : needParen x.prec precTernaryConditional ternFalseSide = false) :
     x.lvl ≤ 14 ∧ (x.lvl = 14 → falseIsAssignmentX x = true) := by
   cases x with
+  | lit l => simp only [XExpr.prec, XExpr.lvl, litPrec, falseIsAssignmentX] at h ⊢ <;> generalize litNegative l = b at h ⊢ <;> cases b <;> revert h <;> decide
   | un o _ => cases o <;> simp only [XExpr.prec, XExpr.lvl, falseIsAssignmentX] at h ⊢ <;> revert h <;> decide
   | bin o _ _ => cases o <;> simp only [XExpr.prec, XExpr.lvl, falseIsAssignmentX] at h ⊢ <;> revert h <;> decide
   | _ => simp only [XExpr.prec, XExpr.lvl, falseIsAssignmentX] at h ⊢ <;> revert h <;> decide
@@ -66,18 +73,21 @@ theorem pos_postfixLike (x : XExpr) (side : Side) (hs : side = .Left ∨ side = 
     (h : needParen x.prec 2 side = false) : x.lvl ≤ 1 := by
   rcases hs with rfl | rfl <;>
   (cases x with
+   | lit l => simp only [XExpr.prec, XExpr.lvl, litPrec] at h ⊢ <;> generalize litNegative l = b at h ⊢ <;> cases b <;> revert h <;> decide
    | un o _ => cases o <;> simp only [XExpr.prec, XExpr.lvl] at h ⊢ <;> revert h <;> decide
    | bin o _ _ => cases o <;> simp only [XExpr.prec, XExpr.lvl] at h ⊢ <;> revert h <;> decide
    | _ => simp only [XExpr.prec, XExpr.lvl] at h ⊢ <;> revert h <;> decide)
 
 theorem pos_arg (x : XExpr) (h : needParen x.prec callArgPrec callArgSide = false) : x.lvl ≤ 14 := by
   cases x with
+  | lit l => simp only [XExpr.prec, XExpr.lvl, litPrec] at h ⊢ <;> generalize litNegative l = b at h ⊢ <;> cases b <;> revert h <;> decide
   | un o _ => cases o <;> simp only [XExpr.prec, XExpr.lvl] at h ⊢ <;> revert h <;> decide
   | bin o _ _ => cases o <;> simp only [XExpr.prec, XExpr.lvl] at h ⊢ <;> revert h <;> decide
   | _ => simp only [XExpr.prec, XExpr.lvl] at h ⊢ <;> revert h <;> decide
 
 theorem pos_castOperand (x : XExpr) (h : needParen x.prec precCast castOperandSide = false) : x.lvl ≤ 2 := by
   cases x with
+  | lit l => simp only [XExpr.prec, XExpr.lvl, litPrec] at h ⊢ <;> generalize litNegative l = b at h ⊢ <;> cases b <;> revert h <;> decide
   | un o _ => cases o <;> simp only [XExpr.prec, XExpr.lvl] at h ⊢ <;> revert h <;> decide
   | bin o _ _ => cases o <;> simp only [XExpr.prec, XExpr.lvl] at h ⊢ <;> revert h <;> decide
   | _ => simp only [XExpr.prec, XExpr.lvl] at h ⊢ <;> revert h <;> decide
